@@ -684,6 +684,35 @@ fn parse_value_like(
     parse_token_left_to_right(our_id, definition, our_left, None, nodes, priority_map, check_for_list, under_group)
 }
 
+// follows the left operands of a side effect block through side effect blocks:
+// true when that chain ends in an operand that is not a side effect block
+fn block_has_operand(nodes: &Vec<ParseNode>, block: &ParseNode) -> Result<bool, CompilerError> {
+    let mut current = block;
+    let mut count = 0;
+
+    loop {
+        match current.left {
+            None => return Ok(false),
+            Some(left) => match nodes.get(left) {
+                None => implementation_error(format!("Index assigned to node has no value in node list. {:?}", left))?,
+                Some(left_node) => {
+                    if left_node.definition != Definition::SideEffect {
+                        return Ok(true);
+                    }
+
+                    // safty net, max iterations to len of nodes
+                    count += 1;
+                    if count > nodes.len() {
+                        implementation_error(format!("Max iterations reached when searching for the operand of a side effect."))?;
+                    }
+
+                    current = left_node;
+                }
+            },
+        }
+    }
+}
+
 fn setup_space_list_check(
     last_left: Option<usize>,
     current_group: Option<usize>,
@@ -710,7 +739,9 @@ fn setup_space_list_check(
                 // an expression ending in a unary suffix is complete as well
                 let is_suffix_value = left_node.secondary_definition == SecondaryDefinition::UnarySuffix;
                 // and so is a side effect block together with the operand it took over
-                let is_block_value = left_node.definition == Definition::SideEffect && left_node.left.is_some() && last_left != current_group;
+                // (a block whose left operand is only another block without an operand has none)
+                let is_block_value =
+                    left_node.definition == Definition::SideEffect && last_left != current_group && block_has_operand(nodes, left_node)?;
                 if is_value || is_group_value || is_suffix_value || is_block_value {
                     trace!(
                         "Value-like definition {:?} found. Will check next token for value-like to make list",
